@@ -1,6 +1,7 @@
 import CashewsVerif.Lemmas.C15Breaker
 import CashewsVerif.Lemmas.C15Rate
 import CashewsVerif.Lemmas.C15Sched
+import CashewsVerif.Lemmas.TtlFacade
 /-
 C15 — rate limiters and circuit breaker never admit more than configured.
 Property theorems only; models in `Model/Decor/{Rate,SlideRate,Breaker,RateSched}.lean`, the executable
@@ -240,6 +241,46 @@ theorem sched_open_never_runs (k : Kind) (w : World) (i : Nat) (later : List Act
     ((Sched.run k (Sched.step k w (.task i)).1 later).1.tasks[i]?).map (·.phase) = some (.done false false) :=
   run_done k i false false later _ (step_isLocked_true k w i h)
 
+/-! ## `period` / `ttl` as the application writes them
+
+The decorators run `period` and `ttl` through `cashews.ttl.ttl_to_seconds` when they are built
+(`Model/TtlFacade.lean`: `Rate.Spelled.params` etc. over C02's model `Ttl.Plain.ticks`); the theorems above are about
+the tick-valued parameters.  `Ttl.Denotes p t` says what a spelling means without looking at the parser (an int /
+float is seconds, a timedelta its total length - days included -, a duration string the sum of its segments); that
+the conversion gives exactly that is `Ttl.Denotes.ticks_eq` (Lemmas/TtlFacade.lean, over C02's parser lemmas).
+Each theorem below is the property composed with that fact: a limiter / breaker configured with *any* spelling of
+`P` (and `T`) ticks is the limiter / breaker of the theorems above with `period = P` (`ttl = T`). -/
+/-- **rate_limit, spelled.**  If `period` denotes `P > 0` ticks and `ttl` (when given) denotes `T` ticks, the decorator
+is built (no ValueError) with exactly `period = P`, `ttl = T`, and in every counter window - cut by `P` and the ban
+`T or P` - of every history exactly the first `limit` calls run. -/
+theorem rate_limit_spelled (s : Rate.Spelled) (P : Nat) (T : Option Nat) (hP : Ttl.Denotes s.period P)
+    (hT : Ttl.DenotesOpt s.ttl T) (hp : 0 < P) (calls : List Nat) :
+    ∃ p : Rate.Params, s.params = some p ∧ p.limit = s.limit ∧ p.period = P ∧ p.ttl = T ∧
+      ∀ w ∈ windows P p.effTtl [] (Rate.run p TtlMap.init calls), RunsFirst s.limit w := by
+  refine ⟨⟨s.limit, P, T⟩, ?_, rfl, rfl, rfl, fixed_window ⟨s.limit, P, T⟩ hp calls⟩
+  simp [Rate.Spelled.params, hP.ticks_eq, Ttl.DenotesOpt.lower_eq hT]
+
+/-- **slice_rate_limit, spelled.**  If `period` denotes `P > 0` ticks the limiter is built with `period = P` and, for
+strictly increasing instants, every half-open interval of `P` ticks contains at most `limit` runs. -/
+theorem slice_rate_limit_spelled (s : SlideRate.Spelled) (P : Nat) (hP : Ttl.Denotes s.period P) (hp : 0 < P)
+    (calls : List Nat) (hinc : StrictlyIncreasing calls) (t : Nat) :
+    ∃ p : SlideRate.Params, s.params = some p ∧ p.limit = s.limit ∧ p.period = P ∧
+      runsIn (SlideRate.run p TtlMap.init calls) t P ≤ s.limit := by
+  refine ⟨⟨s.limit, P⟩, ?_, rfl, rfl, sliding ⟨s.limit, P⟩ hp calls hinc t⟩
+  simp [SlideRate.Spelled.params, hP.ticks_eq]
+
+/-- **circuit_breaker, spelled.**  If `period` denotes `P > 0` and `ttl` denotes `T > 0` ticks the breaker is built with
+exactly these, and conforms call by call (`breaker_conforms`): open for `T` ticks after a trip - a day and a minute
+when `ttl=timedelta(days=1, minutes=1)` -, counts taken over the last `P` ticks. -/
+theorem circuit_breaker_spelled (s : Breaker.Spelled) (P T : Nat) (hP : Ttl.Denotes s.period P) (hT : Ttl.Denotes s.ttl T)
+    (hp : 0 < P) (httl : 0 < T) (calls : List (Nat × Outcome)) (hinc : StrictlyIncreasing (calls.map (·.1)))
+    (hlen : calls.length ≤ 9999) :
+    ∃ p : Breaker.Params, s.params = some p ∧ p.rate = s.rate ∧ p.period = P ∧ p.ttl = T ∧ p.minCalls = s.minCalls ∧
+      breakerHolds p (Breaker.run p TtlMap.init calls) = true := by
+  refine ⟨{ rate := s.rate, period := P, ttl := T, minCalls := s.minCalls }, ?_, rfl, rfl, rfl, rfl,
+    breaker_conforms _ hp httl calls hinc hlen⟩
+  simp [Breaker.Spelled.params, hP.ticks_eq, hT.ticks_eq]
+
 /-! ## Non-vacuity: the models do something, the hypotheses are satisfiable, the remarks are real -/
 
 /-- limit 2, period 1 s, ban 2 s: calls at 0, ⅛, ¼ (rejected: ban until 2¼ s), 1 s (still banned although the
@@ -287,5 +328,32 @@ example : StrictlyIncreasing ([(0, Outcome.fail), (1, .fail), (1, .ok), (15, .ok
 `expire` comes last -/
 example : incrEvents (.fixed ⟨1, 8, some 4⟩) (Sched.init [.ok, .ok])
     [.task 0, .task 1, .task 0, .task 1, .tick 1, .task 0, .task 1] = [(1, true), (2, false)] := by decide
+
+/-- spelled parameters: `rate_limit(limit=2, period=timedelta(days=1, hours=1))` is a limiter with a period of
+720000 ticks (25 h, not 1 h): the third call is rejected and bans until 25 h after it; a call just past one hour is
+still rejected, as is the one at 25 h + ⅛ s; the call at 25 h + ¼ s runs -/
+example : (Rate.Spelled.params ⟨2, .delta (Ttl.TDelta.ticks ⟨1, 3600, 0⟩), none⟩).map
+      (fun p => (p.period, Rate.run p TtlMap.init [0, 1, 1, 28801, 691198, 1])) =
+    some (720000, [⟨0, .run⟩, ⟨1, .run⟩, ⟨2, .reject⟩, ⟨28803, .reject⟩, ⟨720001, .reject⟩, ⟨720002, .run⟩]) := by decide
+
+/-- `slice_rate_limit(limit=1, period="2d")`: a second call ⅛ s before two days have passed is rejected, one ⅛ s
+after them runs -/
+example : (SlideRate.Spelled.params ⟨1, .str "2d".toList⟩).map
+      (fun p => (p.period, SlideRate.run p TtlMap.init [0, 1382399], SlideRate.run p TtlMap.init [0, 1382401])) =
+    some (1382400, [⟨0, .run⟩, ⟨1382399, .reject⟩], [⟨0, .run⟩, ⟨1382401, .run⟩]) := by decide
+
+/-- `circuit_breaker(50, period=60, ttl=timedelta(days=1, minutes=1), min_calls=1)`: tripped at 0, still open a
+minute later, closed again exactly one day and one minute after the trip -/
+example : (Breaker.Spelled.params ⟨50, .int 60, .delta (Ttl.TDelta.ticks ⟨1, 60, 0⟩), 1⟩).map
+      (fun p => (p.ttl, (Breaker.run p TtlMap.init [(0, .fail), (481, .ok), (691198, .ok), (1, .ok)]).map (fun e => (e.ts, e.res)))) =
+    some (691680, [(0, .ran .fail true), (481, .rejected), (691679, .rejected), (691680, .ran .ok false)]) := by decide
+
+/-- the hypotheses of the `*_spelled` theorems are satisfiable with a days-carrying timedelta and a composite string -/
+example : Ttl.Denotes (.delta (Ttl.TDelta.ticks ⟨1, 3600, 0⟩)) 720000 ∧
+    Ttl.DenotesOpt (some (.str (Ttl.render [(1, .d), (90, .s)]))) (some (8 * 86490)) :=
+  ⟨.delta ⟨1, 3600, 0⟩, .given (.segments [(1, .d), (90, .s)])⟩
+
+/-- a spelling the parser refuses: the decorator is not built -/
+example : (SlideRate.Spelled.params ⟨1, .str "1w".toList⟩).isNone = true := by decide
 
 end CashewsVerif.Props.C15
